@@ -52,6 +52,9 @@ CHECKS = {
  "C10": ("mc-conc", "stateless exhaustive schedule exploration (preemption-bounded DFS, bound iterated) of real threads as coroutines",
          "Thousands of small programs (2 threads x 1-2 operations, 3 threads x 1 operation over create / create_iter / build_entity built and dropped / delete / is_alive / join / lazy exec, insert, builder) on initial worlds with 0-2 free indices, forced to collide on the same free list, counter and entities; every sequentially consistent interleaving of the instrumented shared-memory steps with <=2 (quick) / <=3 (thorough) preemptions, unbounded for the short programs; per execution: handles pairwise distinct, alive for their creator, deletion requests for live handles succeed, after maintain alive = initial + created - requested, every lazy action ran once in per-thread order, a second maintain changes nothing.",
          "DESIGN.md §4 C10"),
+ "C11": ("mc-disp", "program enumeration + explicit-state exploration of the stage model extracted from the real DispatcherBuilder, traces replayed on the real Dispatcher",
+         "(a) for every storage-handle shape (ReadStorage/WriteStorage over all 18 storage kinds, Entities, Read<LazyUpdate>, tuples) the resources actually borrowed by fetch() are measured and must equal reads()/writes() exactly; (b) every system graph with <=3 (quick) / <=4 (thorough) systems x access shapes x every subset of dependency edges x every barrier placement goes through the real DispatcherBuilder, whose stage structure is the model: every interleaving of enter/exit events it allows is explored and no two simultaneously active systems may conflict on the measured borrows, dependencies hold, every system exactly once; (c) the model traces (all traces for small graphs, maximal-overlap traces otherwise) are replayed with gates on the real Dispatcher over a rayon pool: every system must become runnable exactly when the model says, and no panic may escape dispatch.",
+         "DESIGN.md §4 C11"),
 }
 
 NOTE = "Bounded exhaustive exploration of the real implementation (no separate model to drift); trusted: hibitset, shred, shrev, crossbeam-queue, rayon, serde as dependencies; bounds are stated in the evidence file."
@@ -87,6 +90,7 @@ def main():
             {"name": "mc-hist", "path": "/verif/mc/src/hist.rs", "serves_properties": ["C01","C02","C03","C05","C09","C17"], "kind_free_text": "explicit-state BFS; transitions replay the real World API"},
             {"name": "mc-join", "path": "/verif/mc/src/join.rs", "serves_properties": ["C06","C07","C13","C16"], "kind_free_text": "stateless exhaustive enumeration of join shapes and of every split tree of the real parallel producer"},
             {"name": "mc-conc", "path": "/verif/mc/src/conc.rs", "serves_properties": ["C10","C17"], "kind_free_text": "CHESS-style preemption-bounded schedule enumeration; shuttle coroutines, custom scheduler, yield points compiled into specs under cfg(specs_verif)"},
+            {"name": "mc-disp", "path": "/verif/mc/src/disp.rs", "serves_properties": ["C11"], "kind_free_text": "graph enumeration; model = stage structure printed by the real builder; gated replay on the real dispatcher"},
             {"name": "mc-store", "path": "/verif/mc/src/store.rs", "serves_properties": ["C04","C08","C12","C19"], "kind_free_text": "explicit-state BFS over storage histories; ledger tokens; destructor-panic injection"},
         ],
         "checks": checks,
